@@ -37,6 +37,16 @@ def corpus(pid=None):
             prop = d[:3]
         if pid is None or prop == pid:
             out.append({'name': 'seed-' + d, 'property': prop, 'kind': 'seeded change', 'patch': p, 'expect': []})
+    md = os.path.join(VERIF, 'selftest', 'manual')
+    if os.path.isdir(md):
+        for f in sorted(os.listdir(md)):
+            if f.endswith('.diff'):
+                try:
+                    prop = open(os.path.join(md, f[:-5] + '.prop')).read().strip()
+                except OSError:
+                    continue
+                if pid is None or prop == pid:
+                    out.append({'name': 'manual-' + f[:-5], 'property': prop, 'kind': 'hand-made change', 'patch': os.path.join(md, f), 'expect': []})
     for ln in open(os.path.join(VERIF, 'known_findings.txt')):
         if not ln.startswith('fixed:'):
             continue
@@ -119,6 +129,8 @@ def main(argv):
             rs = list(ex.map(lambda e: run_entry(e, max(2, 16 // max(1, min(4, len(es))))), es))
         for r in rs:
             print('%-20s %-9s %s' % (r['name'], r['status'], ', '.join(r.get('failed_obligations', [])[:4])))
+            if r['status'] == 'missed':
+                print('    exit=%s detail: %s' % (r.get('exit'), (r.get('detail') or '')[-400:].replace('\n', ' | ')))
         return 0
     pid = argv[0] if argv else None
     rs = run(pid)
